@@ -481,6 +481,36 @@ func init() {
 		}
 		return runCodecX(&cx, tr)
 	}
+	caseRunners["bopt"] = func(b []byte, tr *Tr) error {
+		var bc BOptCase
+		if err := json.Unmarshal(b, &bc); err != nil {
+			return err
+		}
+		return runBOptCase(&bc, tr)
+	}
+	cmds["bopt-replay"] = func(args []string) error {
+		fs := flag.NewFlagSet("bopt-replay", flag.ExitOnError)
+		cases := fs.String("cases", "", "TLC-exported option sequences")
+		out := fs.String("out", "", "trace output")
+		fs.Parse(args)
+		tr, err := NewTr(*out)
+		if err != nil {
+			return err
+		}
+		defer tr.Close()
+		i := 0
+		return readJSONLines(*cases, func(raw json.RawMessage) error {
+			var opts []BOpt
+			if err := json.Unmarshal(raw, &opts); err != nil {
+				return err
+			}
+			if opts == nil {
+				opts = []BOpt{}
+			}
+			i++
+			return runBOptCase(&BOptCase{Fam: "bopt", ID: fmt.Sprintf("bopt-%d", i), Opts: opts}, tr)
+		})
+	}
 	cmds["codec-replay"] = func(args []string) error {
 		fs := flag.NewFlagSet("codec-replay", flag.ExitOnError)
 		cases := fs.String("cases", "", "TLC-exported presentations")
@@ -575,6 +605,79 @@ func init() {
 		}
 		return nil
 	}
+}
+
+// BOptCase: one option sequence for builder.BuildUnixFS (spec/BuilderOps.tla).
+type BOpt struct {
+	O   string `json:"o"`
+	V   int64  `json:"v"`
+	Bad bool   `json:"bad"`
+}
+type BOptCase struct {
+	Fam  string `json:"fam"`
+	ID   string `json:"id"`
+	Opts []BOpt `json:"opts"`
+}
+
+func runBOptCase(bc *BOptCase, tr *Tr) error {
+	tr.Emit(M{"ev": "reset", "case": caseString(bc)})
+	ev := M{"ev": "bopt", "opts": bc.Opts, "out": "ok", "type": -1, "mode": -1, "nbs": -1, "panic": false}
+	var n data.UnixFSData
+	var err error
+	pm := guard(func() {
+		n, err = builder.BuildUnixFS(func(b *builder.Builder) {
+			for _, o := range bc.Opts {
+				switch o.O {
+				case "type":
+					builder.DataType(b, o.V)
+				case "perm":
+					builder.Permissions(b, int(o.V))
+				case "permstr":
+					s := fmt.Sprintf("0%o", o.V)
+					if o.V == 755 {
+						s = "755"
+					}
+					if o.Bad {
+						s = "rwxr-xr-x"
+					}
+					builder.PermissionsString(b, s)
+				case "mtime":
+					builder.Mtime(b, func(tb builder.TimeBuilder) {
+						if !o.Bad {
+							builder.Seconds(tb, 5)
+						}
+						if o.V >= 0 {
+							builder.FractionalNanoseconds(tb, int32(o.V))
+						}
+					})
+				case "bs":
+					builder.BlockSizes(b, make([]uint64, o.V))
+				case "data":
+					builder.Data(b, []byte("d"))
+				case "fsize":
+					builder.FileSize(b, uint64(o.V))
+				case "hash":
+					builder.HashType(b, uint64(o.V))
+				case "fanout":
+					builder.Fanout(b, uint64(o.V))
+				}
+			}
+		})
+	})
+	switch {
+	case pm != nil:
+		ev["out"], ev["panic"] = "panic", true
+	case err != nil:
+		ev["out"] = "error"
+	default:
+		ev["type"] = n.FieldDataType().Int()
+		if n.FieldMode().Exists() {
+			ev["mode"] = n.FieldMode().Must().Int()
+		}
+		ev["nbs"] = n.FieldBlockSizes().Length()
+	}
+	tr.Emit(ev)
+	return nil
 }
 
 // CodecXCase: builder-made messages, the UnixTime and Metadata decoders, random bytes.
